@@ -661,7 +661,7 @@ Proof.
         pose proof (hold_feed_first _ _ _ w H1 Hw) as H2.
         destruct (IH false (prev + 1) [w] _ _ H2 (Forall_cons _ Hw (Forall_nil _))) as [R1 R2].
         { split; [discriminate|exact Hc]. }
-        split; [|exact R2]. rewrite R1. cbn [map]. unfold normtok at 2. cbn [fst snd].
+        split; [|exact R2]. Show. rewrite R1. cbn [map]. unfold normtok at 2. cbn [fst snd].
         unfold emit at 1. cbn [rev map app].
         rewrite !rev_app_distr, <- !app_assoc. cbn [rev app]. rewrite <- !app_assoc. reflexivity.
     + destruct Hb as (Hne & Hc). cbn [canon_go] in Hc.
